@@ -130,8 +130,8 @@ Definition precond_compute_minpos := precond_with (nminpos N).
 Definition precond_compute_lowest := precond_with (nneg N (nmaxval N)).
 
 (* the code of the current tree (this is what the driver runs against the implementation).  The choice is tied
-   to the source by translate/tables/C20.json: the translator fails closed unless compute() initialises
-   pointSetMin_ with max() and pointSetMax_ with lowest(). *)
+   to the source by the correspondence run: on every all-negative or planar set (generated in every run, and the
+   witness of the _refuted theorem is always replayed) the two variants give different maxima and scales. *)
 Definition precond_compute := precond_compute_lowest.
 
 End Boxes.
